@@ -228,10 +228,14 @@ func runC13(c *harness.Ctx) {
 		var cUp, sUp bool
 		realClient(cs, &cUp)
 		realServer(ss, &sUp)
-		stop := c.S.Run(func() bool { return cUp && sUp && cs.complete() && ss.complete() }, 10*time.Minute)
+		comp, compReport := companionPair(c, "C13", cf, sf, &ending)
+		stop := c.S.Run(func() bool { return cUp && sUp && cs.complete() && ss.complete() && comp() }, 10*time.Minute)
 		c.Reached = cUp && sUp
 		c.Nontrivial = cs.expectIn+ss.expectIn > 0
-		if stop == sim.StopTime {
+		if cs.complete() && ss.complete() {
+			compReport()
+		}
+		if stop == sim.StopTime && !c.S.Violated() {
 			c.Violate("C13/stalled-bytes", "quiet for 10 virtual minutes and incomplete: client read %d of %d, server read %d of %d", cs.gotIn, cs.expectIn, ss.gotIn, ss.expectIn)
 		}
 	case 1, 2:
@@ -472,10 +476,14 @@ func runC14(c *harness.Ctx) {
 		var cUp, sUp bool
 		realClient(cs, &cUp)
 		realServer(ss, &sUp)
-		stop := c.S.Run(func() bool { return cUp && sUp && cs.complete() && ss.complete() }, 10*time.Minute)
+		comp, compReport := companionPair(c, "C14", cf, sf, &ending)
+		stop := c.S.Run(func() bool { return cUp && sUp && cs.complete() && ss.complete() && comp() }, 10*time.Minute)
 		c.Reached = cUp && sUp
 		c.Nontrivial = cs.expectIn+ss.expectIn > 0
-		if stop == sim.StopTime {
+		if cs.complete() && ss.complete() {
+			compReport()
+		}
+		if stop == sim.StopTime && !c.S.Violated() {
 			c.Violate("C14/stalled-bytes", "quiet for 10 virtual minutes and incomplete: handshakes client=%v(%v) server=%v(%v); client read %d of %d, server read %d of %d", cUp, dialErr, sUp, wrapErr, cs.gotIn, cs.expectIn, ss.gotIn, ss.expectIn)
 		}
 	case 1, 2:
